@@ -365,6 +365,17 @@ func runC11(c *eng.Ctx) {
 				okRO = false
 			}
 		}
+		// every registration, the ones cut short by a read-only or missing replica included, records whether the replica is
+		// at or over the size limit: ensureCorrectWritables relies on that mark when the replica flips back to writable
+		remember := eng.CallTo("topology.VolumeLayout).rememberOversizedVolume")
+		hit, path := eng.Search(eng.Entry(fn), eng.IsReturn, eng.SearchOpt{Barrier: remember})
+		c.Ob("REG-locations", eng.FuncName(fn)+" oversized-mark-on-every-exit", hit == nil && len(eng.Find(fn, remember)) > 0, fn.Pos(),
+			"every path through a registration records the replica's oversized mark"+func() string {
+				if hit != nil {
+					return "; exit without it: " + eng.DescribePath(c.P, fn, path)
+				}
+				return ""
+			}())
 		c.Ob("REG-locations", eng.FuncName(fn)+" read-only-replica-unwritable", okRO, fn.Pos(), "a registration that sees a read-only replica takes the volume out of the writable set")
 	}
 	if fn := c.NeedFunc("weed/topology", "(*VolumeLayout).UnRegisterVolume"); fn != nil {
